@@ -395,7 +395,7 @@ def shape(hist):
 
     def r(e):
         if e not in ren:
-            ren[e] = "xyzw"[len(ren)]
+            ren[e] = "xyzwvutsr"[len(ren)]
         return ren[e]
 
     out = []
